@@ -118,7 +118,7 @@ RowDiscrete(r) ==
       thc(i) == IF flip(i) THEN -r.fth[i] ELSE r.fth[i]
   IN /\ Len(r.fs) = n /\ Len(r.fphi) = n /\ Len(r.fm) = n /\ Len(r.fth) = n /\ Len(r.fthm) = n /\ Len(r.fmm) = n
      \* (crystals of one flat block are collinear: equal s; the Generic map here is a circle: strict)
-     /\ \A i \in 1..(n - 1) : IF c.geom = "Generic" THEN sc(i) < sc(i + 1) ELSE sc(i) <= sc(i + 1)
+     /\ \A i \in 1..(n - 1) : IF c.geom = "Generic" THEN sc(i) < sc(i + 1) ELSE sc(i) <= sc(i + 1) + SymTol
      /\ \A i \in 1..n : LET j == 2 - 2 * c.minTang - i IN (j >= 1 /\ j <= n) => Abs(sc(i) + sc(j)) <= SymTol
      \* (Blocks: m is the midpoint on the line's cylinder, not mirrored when the crystal radii differ)
      /\ (c.geom = "Generic") => \A i \in 1..n : Abs(r.fm[i] + r.fmm[i]) <= SymTol
@@ -128,22 +128,24 @@ RowDiscrete(r) ==
 
 (* ---------------------------- round trips ------------------------------- *)
 RtBin(r, i) == Bin(r.rs[i], r.ra[i], r.rv[i], r.rt[i], r.rk[i])
+\* (fast path: the bin itself, compared index by index; RowOk established that it is a bin of the data)
+RtSame(r, i, tof) == r.rs[i] = r.seg /\ r.ra[i] = r.ax /\ r.rv[i] = r.view /\ r.rt[i] = r.t0 + i - 1 /\ r.rk[i] = tof
 \* arc-corrected: "converting its reported line of response back to a bin returns the same bin"
 \* (get_bin of arc-corrected data takes no time difference - "TODO NO TOF YET" - so the TOF index is 0)
-RtArcOk(r, i) ==
-  LET b == RowBin(r, i) IN
-  InRing(b) => r.ok[i] = 1 /\ RtBin(r, i) = [b EXCEPT !.tof = 0]
+RtArcOk(r, i) == (Abs(r.t0 + i - 1) * c.bin3 < c.radius3) => r.ok[i] = 1 /\ RtSame(r, i, 0)     \* InRing
 \* detector-based: "a bin ... at most one step away ..., or reports that the line misses the scanner,
-\* which happens only for axially compressed bins at the axial edge"
-RtDetOk(r, i) ==
-  LET b == RowBin(r, i) IN
-  IF r.ok[i] = 1 THEN RtBin(r, i) = b \/ Near(c, b, RtBin(r, i))      \* (b is a bin: RowOk, tang in range)
-  ELSE r.ok[i] = 0 /\ MayMiss(c, b)
-RtOk(r, i) == IF c.arc THEN RtArcOk(r, i) ELSE RtDetOk(r, i)
+\* which happens only for axially compressed bins at the axial edge" (mm = MayMiss of the row's bins:
+\* it depends on segment and axial position only)
+RtDetOk(r, i, mm) ==
+  IF r.ok[i] = 1 THEN RtSame(r, i, r.tof) \/ Near(c, RowBin(r, i), RtBin(r, i))
+  ELSE r.ok[i] = 0 /\ mm
+RtOk(r, i) == IF c.arc THEN RtArcOk(r, i) ELSE RtDetOk(r, i, MayMiss(c, RowBin(r, 1)))
 RtShape(r) == LET n == c.maxTang - c.minTang + 1 IN
               /\ r.kind \in {0, 1, 2} /\ Len(r.ok) = n /\ Len(r.rs) = n /\ Len(r.ra) = n /\ Len(r.rv) = n /\ Len(r.rt) = n /\ Len(r.rk) = n
               /\ (c.arc => r.kind \in {0, 1}) /\ (Discrete(c) => r.kind \in {1, 2} /\ Len(r.dr) = n)
-RtAll(r) == RtShape(r) /\ \A i \in 1..(c.maxTang - c.minTang + 1) : RtOk(r, i)
+RtAll(r) == /\ RtShape(r)
+            /\ IF c.arc THEN \A i \in 1..(c.maxTang - c.minTang + 1) : RtArcOk(r, i)
+               ELSE \A mm \in {MayMiss(c, RowBin(r, 1))} : \A i \in 1..(c.maxTang - c.minTang + 1) : RtDetOk(r, i, mm)
 
 (* ------------------------- detector-pair lines -------------------------- *)
 \* the line through the positions of two detectors, as STIR's classes describe it, is the line of the
@@ -153,8 +155,9 @@ PlLineOk(r, p) ==
   /\ Small(r.lp[2]) /\ Small(r.lb[2]) /\ Small(r.z1[2]) /\ Small(r.z2[2])
   /\ LET rec == Line(r.lp[1], r.lb[1], r.z1[1], r.z2[1]) IN
      \* (angles are logged without the intrinsic tilt; STIR standardises the tilted angle)
-     /\ (c.tilt6 = 0) => rec.phi >= 0 /\ rec.phi < c.N
-     /\ 2 * rec.beta < c.N /\ 2 * rec.beta > -c.N
+     \* (phi just below pi quantises to N: the same line as phi = 0 with the ends exchanged)
+     /\ (c.tilt6 = 0) => rec.phi >= 0 /\ rec.phi <= c.N
+     /\ 2 * rec.beta <= c.N /\ 2 * rec.beta >= -c.N
      /\ SameLine(c.N, rec, PairLine(c, p, ZFirstRing))
 PlBinOk(r, p, b) ==
   \E same \in BOOLEAN :
@@ -225,7 +228,8 @@ ArcOk(r) == ArcOkExt(r, 0)
 (* ------------------------------ dispatch -------------------------------- *)
 Explains(r) ==
   CASE r.e = "Config" -> ConfigOk(r)
-    [] r.e = "ConfigRejected" -> TRUE
+    \* every template the driver asks for is legal and inside the quantifier: STIR must accept it
+    [] r.e = "ConfigRejected" -> FALSE
     [] r.e = "ArcConfig" -> ArcConfigOk(r)
     [] r.e = "Row" -> c.kind = "pdi" /\ RowOk(r) /\ (IF Discrete(c) THEN RowDiscrete(r) ELSE IF c.arc THEN RowArc(r) ELSE RowCyl(r))
     [] r.e = "RT" -> c.kind = "pdi" /\ RowOk(r) /\ ~r.err /\ RtAll(r)
@@ -242,8 +246,10 @@ FailsOnly(r, sig(_)) == /\ c.kind = "pdi" /\ RowOk(r) /\ ~r.err /\ RtShape(r)
 SigTangEdge(r, i) == ~c.arc /\ r.kind \in {0, 1} /\ r.ok[i] = 0 /\ TangEdge(c, RowBin(r, i))
 \* C12-arcview: arc-corrected get_bin of a two-point line of view 0 whose azimuthal angle is (by rounding) just
 \* below the azimuthal offset (view mashing / tilt): view = num_views with the direction reversed
-SigArcView(r, i) == /\ c.arc /\ r.kind = 1 /\ r.view = 0 /\ (c.mash > 1 \/ c.tilt6 # 0) /\ r.ok[i] = 1
-                    /\ r.rv[i] = NumViews(c) /\ r.rs[i] = -r.seg /\ r.rt[i] = -(r.t0 + i - 1)
+SigArcView(r, i) == /\ c.arc /\ r.kind = 1 /\ r.view = 0 /\ (c.mash > 1 \/ c.tilt6 # 0)
+                    /\ \/ r.ok[i] = 1 /\ r.rv[i] = NumViews(c) /\ r.rs[i] = -r.seg /\ r.rt[i] = -(r.t0 + i - 1)
+                       \* (the negated tangential position may lie outside an asymmetric range: miss)
+                       \/ r.ok[i] = 0 /\ (-(r.t0 + i - 1) < c.minTang \/ -(r.t0 + i - 1) > c.maxTang)
 \* C12-maplookup: Blocks/Generic get_bin looks the end points up in the crystal map; the end points of the
 \* reported line lie on ITS cylinder (the larger of the two crystal radii), not on the crystals
 SigMapLookup(r, i) == Discrete(c) /\ r.kind = 1 /\ r.dr[i] >= 1
